@@ -20,6 +20,10 @@ package ice
 //@   pure
 //@   ensures binding-only: result == (msg.Type.Method == 1 && (msg.Type.Class == 0 || msg.Type.Class == 1 || msg.Type.Class == 2))
 
+// RFC 5389 15.4: what follows MESSAGE-INTEGRITY is not covered by the HMAC and must be ignored (FINGERPRINT
+// excepted). gAuthOnly(m): m carries no attribute after MESSAGE-INTEGRITY. Nothing establishes it today
+// (known finding CF-34); a repair would trim the message after the integrity check.
+//@ ghost field stun.Message.gAuthOnly bool
 //@ func (*Agent).handleInboundRequest
 //@   props C02 C05
 //@   requires a != nil && msg != nil
@@ -30,6 +34,8 @@ package ice
 //@   site call Check#1 assert integrity-key-is-local-pwd: elems(arg0) == strBytes(a.localPwd) && arg0.off == 0 && len(arg0) == len(a.localPwd)
 //@   site call Check#1 assert integrity-after-username: a.gUserOK
 //@   site call Check#1 ghost a.gIntegOK := result == nil
+//@   site call GetFrom#1 assert C02 mi-covers-the-priority-that-is-read: msg.gAuthOnly
+//@   site call GetFrom#2 assert C02 mi-covers-the-role-that-is-read: msg.gAuthOnly
 //@   site call addRemoteCandidate#1 assert prflx-only-when-authenticated: a.gUserOK && a.gIntegOK
 //@   site call handleRoleConflict#1 assert conflict-only-when-authenticated: a.gUserOK && a.gIntegOK
 //@   site call HandleBindingRequest#1 assert selector-only-when-authenticated: a.gUserOK && a.gIntegOK
@@ -50,6 +56,7 @@ package ice
 //@   requires a != nil && msg != nil
 //@   site call Check#1 assert integrity-message: arg1 == msg
 //@   site call Check#1 assert integrity-key-is-remote-pwd: elems(arg0) == strBytes(a.remotePwd) && arg0.off == 0 && len(arg0) == len(a.remotePwd)
+//@   site call Check#1 assert a-response-is-never-authenticated-with-the-empty-password: a.remotePwd != ""
 //@   site call Check#1 ghost a.gIntegOK := result == nil
 //@   site call HandleSuccessResponse#1 assert selector-only-when-authenticated: a.gIntegOK && remoteCandidate != nil
 //@   ensures reject-bad-integrity: !a.gIntegOK ==> !result && unchangedExcept("H_ice.Agent.gIntegOK")
